@@ -251,7 +251,7 @@ def load_known(prop):
     if not os.path.exists(p):
         return []
     data = json.load(open(p))
-    return [e for e in data.get("findings", []) if e.get("property") == prop]
+    return [e for e in data.get("findings", []) if e.get("property") == prop or prop in e.get("properties", [])]
 
 
 def cmd_check(args):
